@@ -136,6 +136,25 @@ def bumpAll (toks : List TK) (docOn : Bool) : Nat → PS → PS
 def parseEvents (toks : List TK) (docOn : Bool) : List Ev :=
   (bumpAll toks docOn toks.length (init toks docOn)).events
 
+/-- `n` successive `bump`s (stops where the Rust would panic: a bump at the end) -/
+def bumpN (toks : List TK) (docOn : Bool) : Nat → PS → PS
+  | 0, s => s
+  | n+1, s => match bump toks docOn s with
+    | none => s
+    | some s' => bumpN toks docOn n s'
+
+/-- the loop of `parse_chunk` (crates/emmylua_parser/src/grammar/lua/mod.rs). `g` stands for
+`parse_stats`, i.e. for the whole grammar: it can move the token index only by calling `bump`, so
+its effect on this layer is a number of bumps chosen from the current state — *any* function.
+The progress guard: if `parse_stats` consumed nothing, one token is bumped. `fuel` = iterations. -/
+def chunkLoop (toks : List TK) (docOn : Bool) (g : PS → Nat) : Nat → PS → PS
+  | 0, s => s
+  | f+1, s =>
+    if toks.length ≤ s.idx then s else
+    let s1 := bumpN toks docOn (g s) s
+    let s2 := if s1.idx == s.idx then (bump toks docOn s1).getD s1 else s1
+    chunkLoop toks docOn g f s2
+
 /-- token indices covered by an event list, in order -/
 def cover : List Ev → List Nat
   | [] => []
